@@ -20,12 +20,12 @@ PLAN = {  # tier -> number of generated applications per class
     "thorough": {"free": 120, "inclass": 120},
 }
 BATCH = 40  # modules per workspace
-OPTIONAL_GENERATORS = [("gen_routes", "r"), ("gen_scopes", "s"), ("gen_errors", "e")]
+OPTIONAL_GENERATORS = [("gen_routes", "r"), ("gen_scopes", "s"), ("gen_errors", "e"), ("gen_mw", "w"), ("gen_own", "o")]
 
 
 def _tool_hash():
     h = hashlib.sha256()
-    for fn in ["gen_app.py", "e2e.py", "e2e_stage.py"]:
+    for fn in ["gen_app.py", "e2e.py", "e2e_stage.py"] + sorted(os.path.basename(f) for f in glob.glob(os.path.join(pxvlib.VERIF, "tools", "gen_*.py")) if os.path.basename(f) != "gen_app.py"):
         h.update(open(os.path.join(pxvlib.VERIF, "tools", fn), "rb").read())
     for fn in sorted(glob.glob(os.path.join(pxvlib.VERIF, "corpus", "e2e", "*"))):
         h.update(open(fn, "rb").read())
